@@ -12,7 +12,7 @@ import copy
 import itertools
 import json
 
-from harness.core import VERIF, Ctx, cbool, clist, cnat, copt, cz, guarded
+from harness.core import COQ, VERIF, Ctx, cbool, clist, cnat, copt, cz, guarded
 
 ID = "C07"
 ANCHORS = ["solvor/dlx.py"]
@@ -429,6 +429,7 @@ def run(ctx: Ctx):
                 "malformed calls; non-trivial = well-formed call, >= 2 rows, >= 1 primary column and the search made >= 3 "
                 "iterations; distinct = canonical JSON of the whole call")
     ctx.proof_step(["C07"])
+    if (COQ / "Props" / "C07_deep.v").exists(): ctx.proof_step(["C07"], props_file="Props/C07_deep.v")  # noqa: E701
     big = ctx.tier == "thorough"
     n = ctx.budget(900, 12000)
 
